@@ -2,6 +2,7 @@
 #![allow(dead_code, unused_imports, clippy::all)]
 pub mod ac18;
 pub mod crypto16;
+pub mod gate17;
 pub mod hs19;
 pub mod pipe;
 pub mod pipe16;
